@@ -9,6 +9,7 @@ V: runs with one mutation applied to the response: every listed one (each bit
    library's verdict to equal FinalizeCheck; any token output must pass the
    independent oracle and carry the request's nonce, digest and key id."""
 import vlib
+from checks import ages_common as ag
 from checks import verdicts_common as vc
 from checks import issuance_common as ic
 
@@ -19,7 +20,9 @@ def run(ctx):
     n, cases, kinds = ic.run(ctx, "C02", ["mutations"])
     vn, vcases, vdepth = vc.run(ctx, ["t1final", "t2final", "t5final", "t3final"])   # Verdicts.tla: one request state finalizing every history of responses
     rejecting = sum(v for k, v in kinds.items() if not k.endswith("/Id"))
+    an, acases = ag.run(ctx, ['t1final', 't3held'])   # Ages.tla: every schedule of phases on one long-lived object, each phase scaled to n operations
     return ctx.finish({
+        **ag.coverage(an, acases),
         "traces_validated_against_impl": n,
         "evaluations": len(cases),
         "distinct_nontrivial": ic.distinct(cases),
@@ -37,6 +40,8 @@ def run(ctx):
 
 
 def replay(ctx, path):
+    if vlib.json.load(open(path)).get("family") == "ages":
+        return ag.replay(ctx, path)
     if vlib.json.load(open(path)).get("family") == "verdicts":
         return vc.replay(ctx, path)
     return ctx.replay_case(path, "issuance", "Trace_Issuance", cfg="Trace_Issuance_C02.cfg")
